@@ -400,6 +400,7 @@ static void fam_run(uint64_t seed, const RunOpts *o, Result *r) {
     SimKnobs saved = K;
     sim_reset(); K = saved; sim_seed(seed ^ 0x5DEECE66Dull);
     race_reset(); race_on = sim_race_daemon = P.race != 0;
+    { extern int alloc_junk_on; const char *j = __real_getenv("NANOSIM_JUNK"); alloc_junk_on = j ? atoi(j) : 0; }   /* debugging aid */
     extern int audit_mode; extern uint64_t audit_stride; audit_mode = 1; audit_stride = 17;
     snprintf(sock_path, sizeof sock_path, "/tmp/nanolang_vm_%u.sock", 4242u);
 
@@ -438,7 +439,7 @@ static void fam_run(uint64_t seed, const RunOpts *o, Result *r) {
     static Probe pr; memset(&pr, 0, sizeof pr);
     sim_spawn_fn("prober", prober, &pr, 20000000);   /* t = 20 s: long after all faults have stopped */
 
-    int rc = sim_run();
+    int rc = sim_run(); bool budget_out = false;
 
     /* ---- oracle ---- */
     extern uint64_t audit_fail, audits, audit_objs; extern char audit_msg[];
@@ -451,8 +452,20 @@ static void fam_run(uint64_t seed, const RunOpts *o, Result *r) {
         buf_free(&d);
     }
     if (P.race) { probe(r, "race_detector_runs", 1); probe(r, "race_accesses_checked", race_accesses); probe(r, "race_sync_edges", race_sync_ops); probe(r, "race_threads", race_threads); probe(r, "race_table_full", race_cells_full); }
-    if (rc == 1) { res_violation(r, prop, "budget:steps-exhausted"); buf_printf(&r->detail, "scheduling step budget exhausted (no quiescence)\n"); }
-    if (rc == 2) { res_violation(r, prop, "budget:fuel-exhausted"); buf_printf(&r->detail, "basic-block budget exhausted\n"); }
+    if (rc == 1 || rc == 2) {
+        /* A hostile module may be a long or endless loop: that is a program, not a defect, and whether a given mutant ends within
+         * the budget depends on how much preemption and auditing this run adds.  If, when the budget ran out, every well-formed
+         * client had finished and the only work left was daemon threads executing VM code, the run is judged on everything else. */
+        extern void *sim_last_runnable_task[]; extern SimProc *sim_last_runnable_proc[]; extern int sim_last_runnable_n; extern char sim_last_runnable[]; extern bool audit_task_in_vm(void *);
+        bool only_hostile_vm = c18 && rc == 1 && sim_last_runnable_n > 0;
+        for (int i = 0; i < sim_last_runnable_n && only_hostile_vm; i++) only_hostile_vm = sim_last_runnable_proc[i]->img && strcmp(sim_last_runnable_proc[i]->img->name, "nano_vmd") == 0 && audit_task_in_vm(sim_last_runnable_task[i]);
+        for (int i = 0; i < P.nclients && only_hostile_vm; i++) if (cl[i]->alive) only_hostile_vm = false;
+        if (rc == 2 && c18) { only_hostile_vm = true; for (int i = 0; i < P.nclients; i++) if (cl[i]->alive) only_hostile_vm = false; }
+        if (only_hostile_vm) probe(r, "hostile_module_still_running_at_budget", 1);
+        else if (rc == 1) { res_violation(r, prop, "budget:steps-exhausted"); buf_printf(&r->detail, "scheduling step budget exhausted (no quiescence); runnable at that point: %s\n", sim_last_runnable); }
+        else { res_violation(r, prop, "budget:fuel-exhausted"); buf_printf(&r->detail, "basic-block budget exhausted\n"); }
+        budget_out = only_hostile_vm;
+    }
     /* find the daemon process when it was launched lazily */
     if (!daemon) for (int i = 0; i < sim_nprocs(); i++) if (strcmp(sim_proc_at(i)->name, "nano_vmd") == 0 && sim_proc_at(i)->img && strcmp(sim_proc_at(i)->img->name, "nano_vmd") == 0) { daemon = sim_proc_at(i); break; }
     int nd = 0; for (int i = 0; i < sim_nprocs(); i++) if (sim_proc_at(i)->img && strcmp(sim_proc_at(i)->img->name, "nano_vmd") == 0 && !sim_proc_at(i)->in_vfork_child) nd++;
@@ -490,7 +503,8 @@ static void fam_run(uint64_t seed, const RunOpts *o, Result *r) {
         } else served++;
         buf_free(&e1); buf_free(&e2);
     }
-    if (P.mode == 0) {
+    if (budget_out) { /* no quiescence was reached: the end-of-run clauses (PING long after the last fault, no session thread left, no co-process left) do not apply */ }
+    else if (P.mode == 0) {
         /* pre-started daemon without idle timeout: must be alive at the end, answer a PING sent long after the
          * last fault, and hold no session thread any more */
         if (!daemon->alive) {
@@ -509,9 +523,9 @@ static void fam_run(uint64_t seed, const RunOpts *o, Result *r) {
         /* lazily launched daemon (default 300 s idle timeout): it must still answer at t = 20 s */
         if (daemon && !pr.pong) { res_violation(r, prop, "no-pong-after-faults"); buf_printf(&r->detail, "prober: connected=%d pong=%d errno=%d (lazy daemon)\n", pr.connected, pr.pong, pr.err); }
     }
-    for (int i = 0; i < P.nbad; i++) if (!bs[i].done) { res_violation(r, prop, "bad-peer-stuck:%s", bk_name[P.b[i].kind]); }
+    for (int i = 0; i < P.nbad && !budget_out; i++) if (!bs[i].done) { res_violation(r, prop, "bad-peer-stuck:%s", bk_name[P.b[i].kind]); }
     /* no co-process may survive */
-    for (int i = 0; i < sim_nprocs(); i++) {
+    for (int i = 0; i < sim_nprocs() && !budget_out; i++) {
         SimProc *p = sim_proc_at(i);
         if (p->img && strcmp(p->img->name, "nano_cop") == 0 && p->alive && !p->in_vfork_child) { res_violation(r, "C16", "orphan-cop-in-daemon"); }
     }
